@@ -42,6 +42,8 @@ type Script struct {
 	// DeadConn: once the request has been written the connection is dead the way a locally closed socket is: the
 	// deadline setters fail, and so does every Read, all with the connection's injected error.
 	DeadConn bool `json:"dead_conn,omitempty"`
+	// WriteSleepMs: Write takes this long (a serial line at a low baud rate drains a long request slowly).
+	WriteSleepMs int `json:"write_sleep_ms,omitempty"`
 }
 
 // Event is one logged transport call.
@@ -242,6 +244,12 @@ func (c *Conn) Read(p []byte) (int, error) {
 
 // Write records the request.
 func (c *Conn) Write(p []byte) (int, error) {
+	c.mu.Lock()
+	ws := c.S.WriteSleepMs
+	c.mu.Unlock()
+	if ws > 0 {
+		time.Sleep(time.Duration(ws) * time.Millisecond)
+	}
 	c.mu.Lock()
 	defer c.mu.Unlock()
 	if c.S.WriteErr {
